@@ -21,6 +21,12 @@ EXCEPTIONS = {
 }
 
 
+DANGLING_EXCEPTIONS = {
+    ("ht_delete_function", 0): "entry destructor of the fragment hash table: only called from hash_table_destroy, which "
+                               "frees the whole table right after the walk; entry->data is not read again",
+}
+
+
 def anchored_files():
     for l in open(os.path.join(VERIF, "properties.jsonl")):
         p = json.loads(l)
@@ -225,11 +231,16 @@ def run(chk):
     table_window_rule(chk, prog)
     super_sanity_rule(chk, prog)
     alloc_size_rule(chk, prog, files)
+    from ..dangling import run_dangling
+    run_dangling(chk, prog, "K8-dangling",
+                 lambda src: src.startswith(("lib/sqfs/", "lib/common/", "lib/util/", "bin/rdsquashfs/", "bin/sqfs2tar/", "bin/sqfsdiff/"))
+                 and "/test/" not in src, DANGLING_EXCEPTIONS)
     chk.floor("K6", 100)
     chk.floor("K1-loop", 2)
     chk.floor("K13-window", 6)
     chk.floor("K1-super", 6)
     chk.floor("K13-alloc", 15)
+    chk.floor("K8-dangling", 30)
     controls(chk)
 
 
